@@ -875,6 +875,42 @@ Proof.
   - simpl. symmetry. apply Permutation_length. exact P.
 Qed.
 
+(* ---------------------------------------------------------------- persistence in branching histories *)
+
+Lemma run_app : forall (o1 o2 : list (op V)) e, run V e (o1 ++ o2) = run V (run V e o1) o2.
+Proof. induction o1 as [|o o1 IH]; intros o2 e; simpl; [reflexivity|apply IH]. Qed.
+
+Lemma run_extends : forall (ops : list (op V)) e, exists t, run V e ops = e ++ t /\ length t = length ops.
+Proof.
+  induction ops as [|o ops IH]; intros e; simpl.
+  - exists []. rewrite app_nil_r. split; reflexivity.
+  - destruct (IH (e ++ [step V e o])) as [t [E L]]. exists (step V e o :: t).
+    rewrite E, <- app_assoc. simpl. split; [reflexivity|rewrite L; reflexivity].
+Qed.
+
+Lemma run_length : forall (ops : list (op V)), length (run V [] ops) = length ops.
+Proof. intros ops. destruct (run_extends ops []) as [t [E L]]. rewrite E. simpl. exact L. Qed.
+
+(* a value, once built, is what it is: operations performed later - on it or on anything else -
+   do not change the storage bound to an earlier handle *)
+Theorem values_persistent : forall (ops later : list (op V)) h, h < length ops ->
+  nth_error (run V [] (ops ++ later)) h = nth_error (run V [] ops) h.
+Proof.
+  intros ops later h H. rewrite run_app. destruct (run_extends later (run V [] ops)) as [t [E _]].
+  rewrite E. apply nth_error_app1. rewrite run_length. exact H.
+Qed.
+
+(* in particular the result of m + x is the MergeMap of that step whatever is merged onto m later *)
+Theorem merge_result_independent_of_later_merges : forall (ops later : list (op V)) a b,
+  nth_error (run V [] (ops ++ OMerge a b :: later)) (length ops)
+  = Some (step V (run V [] ops) (OMerge a b)).
+Proof.
+  intros ops later a b. rewrite run_app. cbn [MapLib.run].
+  destruct (run_extends later (run V [] ops ++ [step V (run V [] ops) (OMerge a b)])) as [t [E _]].
+  rewrite E, <- app_assoc. rewrite nth_error_app2 by (rewrite run_length; lia).
+  rewrite run_length, Nat.sub_diag. reflexivity.
+Qed.
+
 (* ---------------------------------------------------------------- storages handed in by the host *)
 
 Theorem host_storages_coherent :
